@@ -122,6 +122,8 @@ func setupProfile(e *Env, o core.RunOpts) error {
 		return setupOracle(e, o)
 	case "C03", "C05", "C10":
 		return setupTSS(e, o)
+	case "C04", "C18":
+		return setupTransition(e, o)
 	case "C09":
 		if e.Ch.Bool("cfg.c09.tss", 500) {
 			return setupTSS(e, o)
@@ -182,6 +184,8 @@ func setupTSS(e *Env, o core.RunOpts) error {
 	tp := drawTSSParams(e)
 	bp := drawBandtssParams(e)
 	e.Shared["tss.genesis.params"] = tp
+	e.Shared["bandtss.genesis.params"] = bp
+	e.Shared["bandtss.genesis.current"] = uint64(1)
 	cfg := world.Config{Seed: o.Seed, ChainID: "simband", ValTokens: tokens, NumUsers: 14, Replicas: 1, GenesisTime: baseTime}
 	faults := drawFaults(e, false)
 	// accounts are created by world.New; member pool must exist before genesis, so derive the same accounts here
@@ -221,5 +225,68 @@ func setupTSS(e *Env, o core.RunOpts) error {
 		e.MaxSteps = e.Ch.Range("cfg.steps", 40, 160)
 	}
 	e.DrainMax = int(tp.SigningPeriod*tp.MaxSigningAttempt) + 12
+	return nil
+}
+
+// setupTransition: governance-driven group transitions with real DKG, hand-over signing and concurrent requests.
+func setupTransition(e *Env, o core.RunOpts) error {
+	tokens := drawValTokens(e, 1, 3)
+	tp := drawTSSParams(e)
+	tp.CreationPeriod = uint64(e.Ch.Range("cfg.tss.creation2", 8, 40))
+	bp := drawBandtssParams(e)
+	e.Shared["tss.genesis.params"] = tp
+	e.Shared["bandtss.genesis.params"] = bp
+	cfg := world.Config{Seed: o.Seed, ChainID: "simband", ValTokens: tokens, NumUsers: 13, Replicas: 1, GenesisTime: baseTime}
+	faults := drawFaults(e, false)
+	faults.TimeJump /= 3
+	var accs []*world.Account
+	for i := 0; i < cfg.NumUsers; i++ {
+		accs = append(accs, world.NewAccount(o.Seed, fmt.Sprintf("user%d", i)))
+	}
+	poolSize := 5 + e.Ch.Intn("cfg.dkg.pool", 5)
+	pool := NewTSSPool(e, accs[:poolSize])
+	drawMemberBehaviour(e, pool, int(tp.MaxDESize), o.Prop == "C18")
+	gcfg := tssGenesisCfg{TSSParams: tp, BandtssParams: bp}
+	e.Shared["bandtss.genesis.current"] = uint64(0)
+	if e.Ch.Bool("cfg.dkg.genesisgroup", 700) {
+		size := 1 + e.Ch.Intn("cfg.tss.groupsize", 4)
+		gcfg.GroupMembers = pool.Members[:size]
+		gcfg.Threshold = uint64(1 + e.Ch.Intn("cfg.tss.threshold", size))
+		gcfg.InitialDEs = int(tp.MaxDESize)
+		e.Shared["bandtss.genesis.current"] = uint64(1)
+	}
+	e.Desc("transition profile: pool=%d genesis group=%d/%d creation_period=%d signing_period=%d max_attempt=%d min/max transition=%s/%s fee=%s", poolSize, gcfg.Threshold, len(gcfg.GroupMembers),
+		tp.CreationPeriod, tp.SigningPeriod, tp.MaxSigningAttempt, bp.MinTransitionDuration, bp.MaxTransitionDuration, bp.FeePerSigner)
+	shadow := NewTSSShadow(pool)
+	e.Shared["tss.shadow"] = shadow
+	e.Shared["tss.pool"] = pool
+	cfg.GenesisMods = append(cfg.GenesisMods, govGenesis(4*time.Second), quietEconomy(), tssGenesis(e, gcfg))
+	w, err := world.New(e.Ch, e.Log, e.St, cfg, o.Scratch)
+	if err != nil {
+		return err
+	}
+	e.W = w
+	w.F = faults
+	for i, m := range pool.Members {
+		m.Acc = w.Users[i]
+	}
+	gov := &GovActor{}
+	e.Shared["gov"] = gov
+	dkg := &DKGActor{Pool: pool, DeviateP: e.Ch.Intn("cfg.dkg.deviate", 250), SilentP: e.Ch.Intn("cfg.dkg.silent", 40), NonMemberP: 30}
+	if o.Prop == "C18" {
+		dkg.DeviateP /= 3
+	}
+	e.Shared["dkg.actor"] = dkg
+	e.Actors = append(e.Actors, gov,
+		&TransitionDriver{Pool: pool, Rate: 250 + e.Ch.Intn("cfg.trans.rate", 500), ForceP: e.Ch.Intn("cfg.trans.force", 300), MaxSize: 1 + e.Ch.Intn("cfg.trans.maxsize", 5), OverlapP: 150},
+		dkg,
+		&TSSActor{Pool: pool, ByzP: e.Ch.Intn("cfg.tss.byz", 150), ReactP: 300, OverDEP: 0},
+		&SigRequester{Rate: 100 + e.Ch.Intn("cfg.sigreq.rate", 400), MaxOpen: 1 + e.Ch.Intn("cfg.sigreq.maxopen", 4), Senders: w.Users[poolSize:], LimitW: []int{85, 5, 5, 5}, RollbackP: 30})
+	e.Monitors = append(e.Monitors, &C04{}, &C18{}, &C05{}, &C03{}, &C10{}, &C09{WithTSS: true})
+	e.MaxSteps = e.Ch.Range("cfg.steps", 60, 150)
+	if o.Thorough {
+		e.MaxSteps = e.Ch.Range("cfg.steps", 80, 260)
+	}
+	e.DrainMax = int(tp.CreationPeriod) + int(tp.SigningPeriod*tp.MaxSigningAttempt) + 30
 	return nil
 }
